@@ -147,3 +147,21 @@ Theorem C11_spec_reads_standard_form : forall wd ld lm ly h mi sec neg hh mm,
   recognise (std wd ld lm ly h mi sec neg hh mm) = Some (mk_fields (Some wd) ld lm 4 ly h mi (Some sec) (ZNum neg hh mm)).
 Proof. exact recognise_std. Qed.
 Print Assumptions C11_spec_reads_standard_form.
+
+(* never Panic, partial: (1) on every string of the generator grammar with valid, representable
+   fields DateTime::parse_from_rfc2822 returns a value (no trap, fuel of the comment loop
+   sufficient); (2) the zone scanner never traps on ANY well-formed string (the comment scanner:
+   C11_comment_total; number / char: C10_number_total, Proofs/Scan.v char_ok).
+   GAP to the full statement "never Panic on any valid UTF-8 string": the composition of the scanner
+   totalities over arbitrary strings (remainder-validity bookkeeping through all error branches of
+   parse_rfc2822) and the totality of Parsed::to_datetime on the field sets the reader can produce
+   (Proofs/C14Date.v has it modulo the ISO-week facts).  The correspondence run covers it by test:
+   no PANIC among the 2.4*10^5 r2.parse cases of the quick tier, 93 000 of them arbitrary / mutated text. *)
+Theorem C11_no_panic_on_grammar_partial : forall s f, utf8_valid s = true -> blen s <= u64_max ->
+  recognise s = Some f -> valid f = true -> representable f = true ->
+  exists r, parse_from_rfc2822 s = Val r.
+Proof. exact reader_total_on_grammar. Qed.
+Print Assumptions C11_no_panic_on_grammar_partial.
+Theorem C11_zone_scanner_total : forall s, utf8_valid s = true -> exists r, timezone_offset_2822 s = Val r.
+Proof. exact timezone_offset_2822_total. Qed.
+Print Assumptions C11_zone_scanner_total.
